@@ -63,15 +63,21 @@ func (t *Tape) next() uint64 {
 	return fin(t.state)
 }
 
+// OnDraw, if set, observes every reduced entry as it is drawn (crash journal of the
+// single-run child process; never set in search mode).
+var OnDraw func(r uint64)
+
 // Draw returns a value in [0,n). n <= 1 consumes an entry too (keeps tapes aligned).
 func (t *Tape) Draw(n int) int {
 	v := t.next()
-	if n <= 1 {
-		t.rec = append(t.rec, 0)
-		return 0
+	r := uint64(0)
+	if n > 1 {
+		r = v % uint64(n)
 	}
-	r := v % uint64(n)
 	t.rec = append(t.rec, r)
+	if OnDraw != nil {
+		OnDraw(r)
+	}
 	return int(r)
 }
 
